@@ -9,6 +9,7 @@ import (
 	"io/fs"
 	"os"
 	"path/filepath"
+	"runtime"
 	"sort"
 	"strings"
 	"sync"
@@ -24,8 +25,25 @@ import (
 // ErrDead is returned by every call made on behalf of a dead simulated process.
 var ErrDead = errors.New("simos: process is dead")
 
+// NumCPU replaces runtime.NumCPU: a per-process drawn value, so that pools sized from the CPU
+// count (output pool = 2*NumCPU, default worker count) are small enough for exhaustion,
+// queueing and leak scenarios to be reachable.
+func NumCPU() int {
+	p := simrt.CurProc()
+	s := simrt.S
+	if p == nil || s == nil {
+		return runtime.NumCPU()
+	}
+	pd := PD(p)
+	if pd.NCPU == 0 {
+		pd.NCPU = []int{4, 1, 2, 16}[s.C.Choose(4, "numcpu")]
+	}
+	return pd.NCPU
+}
+
 // ProcData is the per-process environment.
 type ProcData struct {
+	NCPU     int
 	Cwd      string
 	Environ  []string
 	sigChans []chan<- os.Signal
